@@ -340,6 +340,11 @@ func PublishContext[T any](bus *EventBus, ctx context.Context, event T) {
 
 		// For once handlers, use CompareAndSwap to ensure atomic execution
 		if h.once {
+			// A publish whose context is already cancelled will not run the
+			// handler, so it must not use the once handler up either
+			if ctx.Err() != nil {
+				continue
+			}
 			if !atomic.CompareAndSwapUint32(&h.executed, 0, 1) {
 				continue // Already executed
 			}
